@@ -212,6 +212,17 @@ def stepC04 (st : St) (ws : List String) : St × Resp :=
       let sa' := { sa with src := sa.src ++ ps }
       ({ st with regs := setR st.regs r a', sregs := setR st.sregs r sa' }, resp st a'.obs sa'.obs)
     | _, _ => (st, { model := "bad-reg" })
+  | ["set", r, h, a] =>
+    -- vector type only: set_hash_with_abundance; the register then stands for "h inserted with total a"
+    let r := r.toNat!
+    match getR st.regs r, getR st.sregs r with
+    | some x, some sx =>
+      let x' := x.setV h.toNat! a.toNat!
+      let present := sx.keys.contains h.toNat!
+      let sx' := if present then { sx with src := sx.src.filter (fun p => p.1 != h.toNat!) ++ [(h.toNat!, a.toNat!)] }
+                 else if a.toNat! == 0 then sx else { sx with src := sx.src ++ [(h.toNat!, a.toNat!)] }
+      ({ st with regs := setR st.regs r x', sregs := setR st.sregs r sx' }, resp st x'.obs sx'.obs)
+    | _, _ => (st, { model := "bad-reg" })
   | "sel" :: s :: rs =>
     let s := s.toNat!
     let ids := rs.map String.toNat!
